@@ -93,17 +93,32 @@ func H_STEP() {
 		// never be written to again, whatever the operation and its outcome
 		vf.Freeze(before, "catalog snapshot taken before the write")
 	}
-	out := runOp(txn)
+	var out opOutcome
+	if vf.Param("ops", 1) == 2 && prop == pC03 {
+		out = runOpKind(txn, []int{opDelete, opInsert}[vf.Choice("op1", 2)])
+	} else {
+		out = runOp(txn)
+	}
 	if vf.Param("ops", 1) == 2 && prop == pC03 {
 		// a second write while the reader still holds its snapshot (e.g. delete the newest document,
 		// then insert: structures shared between catalog generations must never be written in place)
-		k2 := vf.Choice("op2", opCount)
-		second := vf.Param("op", -1)
-		_ = second
+		k2 := []int{opInsert, opUpdateOne, opDelete}[vf.Choice("op2", 3)]
 		runOp2(txn, k2)
 	}
 	if prop&(pC02|pC03) != 0 {
 		vf.Unfreeze()
+	}
+	if prop&pC03 != 0 {
+		// reading through the snapshot again yields what it yielded when it was taken
+		var snapDocs bsonkit.List
+		if ns := before.Namespaces[hMain]; ns != nil {
+			snapDocs = ns.Documents.List
+		}
+		vf.Assert(sameDocs(snapDocs, beforeDocs), "the snapshot's document list changed")
+		vf.Assert(len(stOplog(before)) == len(beforeLog), "the snapshot's change log changed")
+		for i, ev := range stOplog(before) {
+			vf.Assert(ev == beforeLog[i], "the snapshot's change log changed")
+		}
 	}
 	after := txn.Catalog()
 	afterDocs := stDocs(txn)
@@ -159,11 +174,14 @@ func H_STEP() {
 			}
 			// update events: applying updatedFields / removedFields to the previous version of the
 			// document yields the new version (up to field order)
+			running := append(bsonkit.List{}, beforeDocs...)
 			for _, ev := range newEvents {
+				prev := running
+				running = replayEvents(running, bsonkit.List{ev})
 				if op, _ := bsonkit.Get(ev, "operationType").(string); op != "update" {
 					continue
 				}
-				old := findByID(beforeDocs, bsonkit.Get(ev, "documentKey._id"))
+				old := findByID(prev, bsonkit.Get(ev, "documentKey._id"))
 				full, ok := bsonkit.Get(ev, "fullDocument").(bson.D)
 				vf.Assert(old != nil && ok, "an update event does not refer to an existing document")
 				patched := bsonkit.Clone(old)
@@ -195,7 +213,12 @@ func H_STEP() {
 					changed++
 				}
 			}
-			vf.Assert(len(newEvents) == changed, "number of logged events differs from the number of changed documents")
+			if !out.multi {
+				vf.Assert(len(newEvents) == changed, "number of logged events differs from the number of changed documents")
+			} else {
+				// several items may touch the same document: at least one event per changed document
+				vf.Assert(len(newEvents) >= changed, "a changed document has no event")
+			}
 		}
 	}
 }
